@@ -69,6 +69,37 @@ Print Assumptions nwchem_roundtrip_needs_shells.
 Example nwchem_example : nw_example_stmt.
 Proof. exact NwchemSpec.nw_example. Qed.
 
+(* ---- a second format in full: the electron part of the Gaussian94 writer / reader pair (Model/G94.v).  The input is the
+   basis after the writer's uncontract_general / uncontract_spdf(1) / sort_basis calls (one coefficient column per momentum).
+   The reader has no spherical / cartesian information and tags everything spherical: g94_cartesian shows it. ---- *)
+From BSE Require Import Model.G94 Proofs.G94Defs.
+From BSE Require Proofs.G94Spec.
+
+Theorem gaussian94_write_total : g94_write_total_stmt.
+Proof. exact G94Spec.g94_write_total. Qed.
+Print Assumptions gaussian94_write_total.
+
+Theorem gaussian94_roundtrip : g94_roundtrip_stmt.
+Proof. exact G94Spec.g94_roundtrip_exact. Qed.
+Print Assumptions gaussian94_roundtrip.
+
+Theorem gaussian94_no_number_lost : g94_no_number_lost_stmt.
+Proof. exact G94Spec.g94_no_number_lost. Qed.
+Print Assumptions gaussian94_no_number_lost.
+
+(* what the format cannot carry, as theorems about the model: a general contraction that was not uncontracted before, and the
+   cartesian tag *)
+Theorem gaussian94_needs_uncontract_general : g94_roundtrip_general_stmt.
+Proof. exact G94Spec.g94_roundtrip_general. Qed.
+Print Assumptions gaussian94_needs_uncontract_general.
+
+Theorem gaussian94_loses_cartesian_tag : g94_cartesian_stmt.
+Proof. exact G94Spec.g94_cartesian. Qed.
+Print Assumptions gaussian94_loses_cartesian_tag.
+
+Example gaussian94_example : g94_example_stmt.
+Proof. exact G94Spec.g94_example. Qed.
+
 Example roundtrip_demo :
   match write_matrix [[CStr "130.70932"; CStr "0.5"]; [CStr "1.5E-01"; CStr "-0.25"]] [8; 31]%Z true with
   | inr t => parse_primitive_matrix (splitlines t) = inr (["130.70932"; "0.5"], [["1.5E-01"; "-0.25"]])
